@@ -300,13 +300,13 @@ func c10Client(c *Ctx) {
 	n := 0
 	ir.EachInstr(fn, func(_ *ssa.BasicBlock, _ int, in ssa.Instruction) {
 		r, ok := in.(*ssa.Return)
-		if !ok || len(r.Results) != 2 {
+		if !ok || len(ir.Results(r)) != 2 {
 			return
 		}
-		if !ir.IsNilConst(r.Results[1]) {
+		if !ir.IsNilConst(ir.Results(r)[1]) {
 			return // error returns
 		}
-		if ir.IsNilConst(r.Results[0]) {
+		if ir.IsNilConst(ir.Results(r)[0]) {
 			return
 		}
 		n++
